@@ -11,7 +11,8 @@
   * `refused_setter_no_effect`                      : the full statement (was `…_full`, refuted; `…_partial` excluded the channel map);
   * `chmap_refused_but_kept_old_rule`, `refused_chmap_no_effect_old_rule_fails` : the witness under the rule before the repair
                                                       (findings/kf_c09_chmap_refused_kept.txt on the library);
-  * `setMap_refused_no_effect` … : the same on the state machine that carries the map itself (`sfmodel chmap`, vlib/chmapfix.py).
+  * `setMap_refused_no_effect` … : the same on the state machine that carries the map itself (`sfmodel chmap`, vlib/chmapfix.py);
+  * `remask_witness` : the residual KF-C09-CHMAP-REMASK (the handler's mask is re-derived from the old map: foreign masks with spare bits).
 -/
 import SfModel.Command
 import SfModel.ChmapVerdict
@@ -161,5 +162,13 @@ theorem setMap_old_rules :
     (setMap au 8 (some [3, 4])).ret = 0 ∧ (setMap au 8 (some [3, 4])).st = au ∧
     (setMap wav 8 (some [4, 3])).ret = 0 ∧ (setMap wav 8 (some [4, 3])).st = wav ∧
     (setMap wav 8 (some [3, 4])).ret = 1 ∧ (setMap wav 8 (some [3, 4])).st.map = some [3, 4] := by decide
+
+open Sf.ChmapVerdict in
+/-- KF-C09-CHMAP-REMASK (known finding, foreign files only): putting the old map back re-derives the handler's mask from it.  For a
+    mask the library wrote itself (one bit per channel, `mapOfMask` then has no padding) that is the mask again; a foreign mask
+    with more bits than channels (0x7 on two channels) comes back without the extra bits (findings/kf_c09_chmap_remask.txt) -/
+theorem remask_witness :
+    genChannelMask (mapOfMask 0x7 2) = 0x3 ∧ genChannelMask (mapOfMask 0x3 2) = 0x3 ∧ genChannelMask (mapOfMask 0x33 4) = 0x33 ∧
+    genChannelMask (mapOfMask 0x3F 6) = 0x3F ∧ genChannelMask (mapOfMask 0xFF 8) = 0xFF ∧ genChannelMask (mapOfMask 0x4 1) = 0x4 := by decide
 
 end Sf.C09Chmap
